@@ -21,6 +21,28 @@ def enc(rng, b, p=0.3):
     return out
 
 
+def url_decode(v):
+    """reference reading of a form value (RFC 3986 / HTML forms): %XY with hex digits of either case, '+' is a space;
+    None when the value has an incomplete or non-hex escape (no expectation then)"""
+    out = bytearray()
+    i = 0
+    while i < len(v):
+        c = v[i:i + 1]
+        if c == b"%":
+            h = v[i + 1:i + 3]
+            if len(h) != 2 or any(x not in b"0123456789abcdefABCDEF" for x in h):
+                return None
+            out.append(int(h, 16))
+            i += 3
+        elif c == b"+":
+            out.append(32)
+            i += 1
+        else:
+            out += c
+            i += 1
+    return bytes(out)
+
+
 class C14(F.Spec):
     pid = "C14"
     lean_module = "SuplaVerif.Props.C14"
@@ -243,6 +265,25 @@ class C14(F.Spec):
                 fs.append(F.Finding("field-not-terminated", "%s has no terminator inside its field" % k))
         shape = me.get("shape")
         names = [k for k, _ in me.get("fields", [])]
+        if shape == "keep" and len(rs) == 2 and any(x.startswith("FLASH write 245760") and x.split()[-1] == "0" for x in raw[-2]):
+            # the password as the MQTT client reads it: the field, continued behind the user name's terminator when full
+            L, E = o["pwd.n"], o["email.n"]
+
+            def full(rec):
+                p = self.fld(rec, "pwd")
+                if b"\0" in p:
+                    return self.cstr(p)
+                mail = self.fld(rec, "email")
+                if b"\0" not in mail[:E - 1]:
+                    return p
+                rest = mail[mail.index(b"\0") + 1:]
+                return p + self.cstr(rest) if b"\0" in rest else p
+            m2 = bytes.fromhex(me["m2"])[:E - 1]
+            pb = full(before)
+            if len(m2) + 1 + max(0, len(pb) - L) + 1 <= E and full(after) != pb:
+                fs.append(F.Finding("stored-password-not-kept", "a form without a password changed the stored %d-character password "
+                                    "(new e-mail of %d characters: there was room)" % (len(pb), len(m2))))
+            return fs
         if shape in ("get", "path", "few") and (saved or before != after):
             fs.append(F.Finding("saved-without-valid-post", "%s request with %d fields changed/saved the settings" % (shape, len(names))))
         if shape in ("form", "split", "witness"):
@@ -258,6 +299,18 @@ class C14(F.Spec):
             for k, vh in me.get("fields", []):
                 if k == "wpw" and vh == "" and self.fld(after, "wpwd") != self.fld(before, "wpwd"):
                     fs.append(F.Finding("empty-password-not-kept", "wpw submitted empty but WIFI_PWD changed"))
+            if shape == "form" and saved:
+                fl = me.get("fields", [])
+                for j, (k, vh) in enumerate(fl):
+                    # a text value that fits its field, followed by another field: stored = URL-decoded value
+                    if k in TEXT and names.count(k) == 1 and j < len(fl) - 1:
+                        d = url_decode(bytes.fromhex(vh))
+                        if d is None or b"\0" in d or len(d) >= o[TEXT[k] + ".n"] - 1 or (k == "wpw" and d == b""):
+                            continue
+                        got = self.cstr(self.fld(after, TEXT[k]))
+                        if got != d:
+                            fs.append(F.Finding("url-decoding", "%s=%r is stored as %r, decoded it reads %r" % (
+                                k, bytes.fromhex(vh)[:60], got[:60], d[:60])))
             pt = int.from_bytes(self.fld(after, "port"), "little", signed=True)
             for k, vh in me.get("fields", []):
                 v = bytes.fromhex(vh)
